@@ -277,7 +277,7 @@ pub fn run(tier: Tier, seed: u64, replay: Option<String>) -> i32 {
             cases.push(Case { lower, upper: k.to_string() });
         }
     }
-    let n = tier.pick(6000, 200000);
+    let n = tier.pick(60000, 600000);
     let mut drv = Driver::new(seed, 16, 40);
     for t in drv.draw(n) {
         let s = t.current();
